@@ -333,7 +333,13 @@ arr_list
     :
         { $$ = 0 }
     | arr_list '[' ']'
-        { $$++ }
+        {
+            if $1 == 32767 {
+                mmlex.Error("too many array dimensions")
+                return 1
+            }
+            $$ = $1 + 1
+        }
     ;
 
 in_param_list
@@ -444,6 +450,10 @@ src_stm
         {
             cmd := strings.TrimSpace($<intern>3.unquote($3))
             stagecodeParts := strings.Fields(cmd)
+            if len(stagecodeParts) == 0 {
+                mmlex.Error("empty stage source")
+                return 1
+            }
             $$ = &SrcParam{
                 Node: NewAstNode($<loc>1),
                 Lang: StageLanguage($<intern>2.Get($2)),
